@@ -7,7 +7,7 @@ API (used by C11, C12, C13, C14, C15, C17):
   shareAt o s c i1                horner o c (ofNat i1) + s                (one share of one secret)
   coeffsFor coeffs t h            the t coefficients drawn for secret number h (randbelow call order)
   randomSplit o s coeffs t m      m rows (party i = row i, x-coordinate i+1), one column per secret
-  randomSplitE                    same, with the IndexError of `s[0]` on an empty batch
+  randomSplitE                    same, with the ValueError for fields of at most m elements when t > 0
   recombVec o xs xr               Lagrange recombination vector exactly as _recombination_vector computes it
   recombVecE                      same, ZeroDivisionError when some denominator is zero
   dot, column, recombine o xs shares xrs        sums[r][h] = Σ_i shares[i][h] * vector[r][i]
@@ -57,10 +57,11 @@ def randomSplit (o : FieldOps F) (s : List F) (coeffs : List F) (t m : Nat) : Li
   (List.range m).map fun i =>
     s.zipIdx.map fun (sh : F × Nat) => shareAt o sh.1 (coeffsFor coeffs t sh.2) (i + 1)
 
-/-- with the error of `s[0]` (thresha.py:33) on an empty batch -/
-def randomSplitE (o : FieldOps F) (s : List F) (coeffs : List F) (t m : Nat) :
+/-- with the ValueError for a field of at most `m` elements when `t > 0` (thresha.py: `if t and m >= order`; party
+`order` would evaluate the polynomial at 0).  An empty batch is dealt as `m` empty rows (`len(s) > 0 and …`). -/
+def randomSplitE (o : FieldOps F) (order : Nat) (s : List F) (coeffs : List F) (t m : Nat) :
     Except String (List (List F)) :=
-  if s.isEmpty then .error "IndexError" else .ok (randomSplit o s coeffs t m)
+  if t ≠ 0 ∧ m ≥ order then .error "ValueError" else .ok (randomSplit o s coeffs t m)
 
 /-! ### _recombination_vector  ≙ thresha.py:67-85 -/
 
@@ -107,7 +108,7 @@ def recombine1 (o : FieldOps F) (xs : List F) (shares : List (List F)) (xr : F) 
 
 /-- the exceptions of `recombine` in the order the code raises them:
 `xs, shares = list(zip(*points))` on no points (ValueError), the division in the recombination vector
-(ZeroDivisionError), `shares[0][0]` on zero-length share vectors / short rows (IndexError) -/
+(ZeroDivisionError), short rows (IndexError); zero-length share vectors recombine to empty rows -/
 def recombineE [DecidableEq F] (o : FieldOps F) (xs : List F) (shares : List (List F))
     (xrs : List F) : Except String (List (List F)) :=
   if xs.isEmpty || shares.isEmpty || xs.length != shares.length then .error "ValueError"
@@ -115,7 +116,7 @@ def recombineE [DecidableEq F] (o : FieldOps F) (xs : List F) (shares : List (Li
     .error "ZeroDivisionError"
   else
     let n := (shares.headD []).length
-    if n == 0 || shares.any (fun sh => sh.length < n) then .error "IndexError"
+    if shares.any (fun sh => sh.length < n) then .error "IndexError"
     else .ok (recombine o xs shares xrs)
 
 /-! ### _f_S_i  ≙ thresha.py:135-141 -/
